@@ -479,19 +479,27 @@ def delegation(chk: Check, cls: ClassInfo, name: str, over_ok: List[tuple], rule
         return
     chk.saw(f)
     callee = callee or name
+    def keyed_collection() -> bool:
+        # results gathered in a mapping keyed by something other than the result itself: results
+        # with equal keys collapse into one
+        keyed = [x for x in walk_no_nested(f.node) if isinstance(x, ast.DictComp) or (
+            isinstance(x, ast.Call) and (dotted(x.func) or ("",))[-1] in (
+                "dict", "SortedDict", "OrderedDict", "defaultdict", "SortedKeyList", "groupby"))]
+        if keyed:
+            chk.ob(rule, key + ":delegates", False, f.loc(keyed[0]),
+                   "%s collects its candidates in a keyed collection (%s): results whose keys are equal "
+                   "collapse into one, so the union over the children loses results"
+                   % (key, unparse(keyed[0])[:60]), 2)
+        return bool(keyed)
     try:
         t = function_term(f)
     except OutsideFragment as e:
-        keyed = [x for x in walk_no_nested(f.node) if isinstance(x, (ast.DictComp, ast.SetComp)) or (
-            isinstance(x, ast.Call) and isinstance(x.func, ast.Name) and x.func.id in ("dict", "set", "frozenset"))]
-        if keyed:
-            chk.ob(rule, key + ":delegates", False, f.loc(keyed[0]),
-                   "%s collects its candidates in a dict/set (%s): members that compare or hash equal under "
-                   "that key collapse into one, so the union over the children loses results"
-                   % (key, unparse(keyed[0])[:60]), 2)
+        if keyed_collection():
             return
         chk.ob(rule, key + ":delegates", False, f.loc(), "%s is not a union over children (%s)" % (key, e),
                undecided=True)
+        return
+    if t[0] != "union" and keyed_collection():
         return
     param = f.param_names()[1]
     ok = False
